@@ -9,11 +9,13 @@ ISOLATION = ["RecvSeq", "ReplySeq", "SendResult", "StatusFidelity", "NeverOverLi
 POOL = ["RetainedStable", "UploadComplete", "ChunkLimit"]
 
 
-def design_check(scratch):
+def design_check(scratch, tier="quick"):
     res = {}
+    mcfg = "Pool_MC" if tier == "quick" else "Pool_MCbig"
     with cf.ThreadPoolExecutor(max_workers=3) as ex:
-        futs = {n: ex.submit(C.tlc, scratch, "Pool.tla", n + ".cfg", 2, None, 600, None, None, n) for n in ["Pool_MC", "Pool_Neg_NoCopy", "Pool_Neg_DoublePut"]}
+        futs = {n: ex.submit(C.tlc, scratch, "Pool.tla", n + ".cfg", 2, None, 1800, None, None, n) for n in [mcfg, "Pool_Neg_NoCopy", "Pool_Neg_DoublePut"]}
         res = {k: f.result() for k, f in futs.items()}
+    res["Pool_MC"] = res[mcfg]
     C.tlc_ok(res["Pool_MC"], "Pool_MC")
     if C.tlc_violated(res["Pool_MC"]):
         raise C.Infra("Pool design check violated")
@@ -84,7 +86,7 @@ def run(prop, tier, replay=None):
     scratch = C.Scratch("c13")
     try:
         race = C.build_harness(scratch, race=True)
-        design = design_check(scratch) if not replay else dict(states=0, transitions=0, neg_guards=0)
+        design = design_check(scratch, tier) if not replay else dict(states=0, transitions=0, neg_guards=0)
         nseeds = 2 if tier == "quick" else 8
         viol, known = {}, collections.Counter()
         findings = C.load_findings()
